@@ -142,6 +142,9 @@ type ExtraResult struct {
 type ExtraViolation struct {
 	Class, Detail, Name string
 	Replay              []byte
+	// Tags are structural facts about the violating execution, matched against
+	// the predicates of the listed known findings like the tags of a first-layer item.
+	Tags []string
 }
 
 // Cleaner is implemented by properties that keep per-process scratch state
@@ -751,6 +754,15 @@ func batch(p Prop, seed uint64, tier string, count int, budget float64, workers 
 				os.MkdirAll(filepath.Join(verifDir, "replays"), 0o755)
 				path := filepath.Join(verifDir, "replays", fmt.Sprintf("%s-%d-%s.json", p.ID(), seed, v.Name))
 				os.WriteFile(path, v.Replay, 0o644)
+				if ids := Classify(known, &Result{Violation: v.Class, Detail: v.Detail, Items: []Item{{Tags: v.Tags, Detail: v.Detail}}}); ids != nil {
+					for _, id := range ids {
+						if knownHits[id] == 0 {
+							fmt.Printf("KNOWN-FINDING: property=%s %s\n", p.ID(), knownByID[id].Line)
+						}
+						knownHits[id]++
+					}
+					continue
+				}
 				fmt.Printf("VIOLATION property=%s replay=%s\n  class=%s: %s\n", p.ID(), path, v.Class, v.Detail)
 				reported = append(reported, map[string]any{"class": v.Class, "replay": path, "detail": v.Detail, "layer": er.Name})
 				exit = 1
